@@ -266,12 +266,20 @@ every recorded diagnostic must name main.asm and the line/column of the statemen
 			let pre = format!("{s1}.addr 0x100;{s2}.global g_never{i};{s3}");
 			let goff = pre.find(".global").unwrap();
 			let uoff = pre.len();
-			let main_c = format!("{pre}.du16 g_never{i};{s1}NOP;");
+			// the user: a data statement or an INSTRUCTION of any operand kind (immediate, register-or-immediate, address offset, label)
+			let users = [".du16 X;", "BL X;", "MOVS R0, X;", "LDR R1, [R2 + X];", "B X;", "ADDS R0, R0, X;", "SVC X;", "ADR R0, X;", "LDR R0, X;", "CMP R1, X;"];
+			let user = users[(i / 5) as usize % users.len()].replace('X', &format!("g_never{i}"));
+			cx.report.hit(&format!("twice-deferred user: {}", users[(i / 5) as usize % users.len()]));
+			let main_c = format!("{pre}{user}{s1}NOP;");
 			check_files(cx, &[("main.asm".to_owned(), main_c)], &[("main.asm".to_owned(), goff), ("main.asm".to_owned(), uoff)], &dir);
 			// (d) include: the child imports a name the includer defines only after the include; the value does not fit
 			let lead = format!("{s2}.import g_far{i};{s3}");
-			let child_d = format!("{lead}.du8 g_far{i};{s1}");
-			let main_d = format!("{s1}.addr 0x1F0;{s2}.global g_far{i};{s3}.include \"inc.asm\";{s2}.dstr \"0123456789abcdef0123\";{s3}g_far{i}:{s1}NOP;");
+			// the value (0x204 or, for the branch, an address 7.5 KiB away) does not fit the operand of the using statement
+			let far_users = [".du8 X;", "MOVS R0, X;", "ADDS R0, R0, X;", "SVC X;", "LDR R1, [R2 + X];", "B X;", "CMP R1, X;", "LDRB R1, [R2 + X];"];
+			let fu = far_users[(i / 5) as usize % far_users.len()];
+			let child_d = format!("{lead}{}{s1}", fu.replace('X', &format!("g_far{i}")));
+			let place = if fu.starts_with("B ") {".addr 0x2000;"} else {".dstr \"0123456789abcdef0123\";"};
+			let main_d = format!("{s1}.addr 0x1F0;{s2}.global g_far{i};{s3}.include \"inc.asm\";{s2}{place}{s3}g_far{i}:{s1}NOP;");
 			check_files(cx, &[("main.asm".to_owned(), main_d), ("inc.asm".to_owned(), child_d)], &[("inc.asm".to_owned(), lead.len())], &dir);
 			cx.report.hit_n("diagnostic position cases of twice-deferred statements", 2);
 		}
